@@ -421,7 +421,139 @@ def run_ruleset(ctx, m, specs, rng, with_json=True):
                 break       # one report per question
             else:
                 ctx.count('outcome.agree')
+    if n: membership_phase(ctx, m, specs, ref, ask_perms, rng)
     m.clear_rules()
+
+
+# ---------------------------------------------------------------------------------------------------------------
+# membership changes: groups / roles of ONE user value change between (and inside) sessions
+# ---------------------------------------------------------------------------------------------------------------
+MEMBERS = {}        # key of a mutable user -> {'groups': tuple, 'rp': int, 'xgroups': tuple, 'xroles': tuple}
+
+def mkey(user): return user if isinstance(user, str) else getattr(user, 'mkey', None)
+
+def install_dynamic_getters(m):
+    """Registered late (first membership phase): a groups getter and a roles getter for plain string users, and a
+    second pair registered for EVERY user class that contributes extra groups / roles from a table."""
+    orm = m.orm
+    @orm.user_groups_getter(str)
+    def _str_groups(user):
+        st = MEMBERS.get(user)
+        return list(st['groups']) if st else None
+    @orm.user_roles_getter(str, m.db.Entity)
+    def _str_roles(user, obj):
+        st = MEMBERS.get(user)
+        return list(user_roles(st['rp'], obj.id)) if st else None
+    @orm.user_groups_getter()
+    def _extra_groups(user):
+        st = MEMBERS.get(mkey(user))
+        return list(st['xgroups']) if st and st['xgroups'] else None
+    @orm.user_roles_getter()
+    def _extra_roles(user, obj):
+        st = MEMBERS.get(mkey(user))
+        if not st or not st['xroles']: return None
+        return st['xroles'][0] if len(st['xroles']) == 1 else list(st['xroles'])
+    m.dynamic_getters = True
+
+def random_state(rng):
+    return {'groups': tuple(rng.sample(GROUPS, rng.choice((0, 1, 1, 2, 3)))), 'rp': rng.randrange(4),
+            'xgroups': tuple(rng.sample(GROUPS, rng.choice((0, 0, 1)))), 'xroles': tuple(rng.sample(('owner', 'editor'), rng.choice((0, 0, 1))))}
+
+def apply_state(user, st):
+    MEMBERS[mkey(user)] = st
+    if not isinstance(user, str): user.groups, user.rp = tuple(st['groups']), st['rp']
+
+def membership_phase(ctx, m, specs, ref, perms, rng):
+    """The same user value is asked in session 1 (state A), again in session 1 after its membership changed to B
+    (either answer is admissible there: pony may keep what it computed for the session), in a NEW session (B exactly),
+    and in another new session after a change made while no session was open (C exactly)."""
+    orm, core = m.orm, m.core
+    if not getattr(m, 'dynamic_getters', False):
+        install_dynamic_getters(m)
+        m.mutable_user = VUser((), 0); m.mutable_user.mkey = 'mutable-object-user'; m.mutable_user.name = 'u[mutable]'
+    plain_attrs = [a for a, v in ATTRS.items() if v[2] is None]
+    def ref_answers(st):
+        ug = set(st['groups']) | set(st['xgroups'])
+        out = {}
+        for perm in perms:
+            for en in ENTITIES: out[('E', perm, en)] = ref.entity(ug, perm, en)
+            for an in plain_attrs: out[('A', perm, an)] = ref.attribute(ug, perm, an)[0]
+            for cls, pk, li in OBJECTS:
+                roles = set(user_roles(st['rp'], pk)) | set(st['xroles'])
+                out[('O', perm, (cls, pk))] = ref.object(ug, roles, perm, cls, set(LABELSETS[li]))
+        return out
+    def pony_answers(user, live):
+        out = {}
+        for perm in perms:
+            for en in ENTITIES: out[('E', perm, en)] = bool(core.has_perm(user, perm, m.E[en]))
+            for an in plain_attrs: out[('A', perm, an)] = bool(core.has_perm(user, perm, m.A[an]))
+            for cls, pk, li in OBJECTS: out[('O', perm, (cls, pk))] = bool(core.has_perm(user, perm, live[(cls, pk)]))
+        return out
+    def load():
+        return dict(((cls, pk), m.E[cls][pk]) for cls, pk, li in OBJECTS)
+    def judge(stage, user, got, admissible, states, previous=None):
+        for q, v in got.items():
+            ctx.count('membership.questions')
+            # a stale answer (computed for the previous membership) would be visible exactly at these questions
+            if previous is not None and previous[q] != admissible[0][q]: ctx.count('membership.questions_exposing_staleness')
+            if not any(a[q] == v for a in admissible):
+                ctx.count('outcome.membership_stale')
+                known = None
+                # the object-level entity-exclusion finding also shows here while it is open
+                if q[0] == 'O' and v:
+                    cls, pk = q[2]
+                    li = [o[2] for o in OBJECTS if o[0] == cls and o[1] == pk][0]
+                    st = states[-1]
+                    if ref.object(set(st['groups']) | set(st['xgroups']), set(user_roles(st['rp'], pk)) | set(st['xroles']), q[1], cls,
+                                  set(LABELSETS[li]), ignore_entity_exclusion=True): known = F_OBJ
+                w = {'rules': specs, 'stage': stage, 'user': repr(user), 'states': states, 'question': list(q), 'pony': v,
+                     'reference_for_each_admissible_state': [a[q] for a in admissible]}
+                if known: report_finding(ctx, known, w)
+                else: ctx.violation(w, mechanism='membership-change-' + stage)
+                return
+    def groups_ok(stage, user, admissible_states, states):
+        got = set(core.get_user_groups(user))
+        wants = [set(st['groups']) | set(st['xgroups']) | {'anybody'} for st in admissible_states]
+        ctx.count('membership.get_user_groups_calls')
+        if got not in wants:
+            ctx.violation({'rules': specs, 'stage': stage, 'user': repr(user), 'states': states, 'get_user_groups': sorted(got),
+                           'admissible': [sorted(x) for x in wants]}, mechanism='membership-change-groups-' + stage)
+    for user in (m.mutable_user, rng.choice(('alice', 'bob'))):
+        A, B, C = random_state(rng), random_state(rng), random_state(rng)
+        rA, rB, rC = ref_answers(A), ref_answers(B), ref_answers(C)
+        apply_state(user, A)
+        with orm.db_session:
+            live = load()
+            groups_ok('first-session', user, [A], [A])
+            judge('first-session', user, pony_answers(user, live), [rA], [A])
+            apply_state(user, B)                                  # changed while the session is open
+            groups_ok('same-session-after-change', user, [A, B], [A, B])
+            judge('same-session-after-change', user, pony_answers(user, live), [rA, rB], [A, B])
+        with orm.db_session:
+            live = load()
+            groups_ok('next-session', user, [B], [A, B])
+            judge('next-session', user, pony_answers(user, live), [rB], [A, B], previous=rA)
+            # serialisation follows the current membership too
+            orm.set_current_user(user)
+            try:
+                objs = [live[k] for k in sorted(live)][::3]
+                try: out = json.loads(m.db.to_json(objs, with_schema=False))
+                except core.PermissionError: out = None
+            finally: orm.set_current_user(None)
+            ctx.count('membership.to_json_calls')
+            if out is not None:
+                for cls, d in out['objects'].items():
+                    for pk in d:
+                        if not (rB[('O', 'view', (cls, int(pk)))] if 'view' in perms else True) and \
+                           not (rB[('O', 'edit', (cls, int(pk)))] if 'edit' in perms else False) and 'view' in perms and 'edit' in perms:
+                            ctx.violation({'rules': specs, 'stage': 'next-session', 'user': repr(user), 'states': [A, B],
+                                           'to_json_object': [cls, int(pk)]}, mechanism='membership-change-to_json')
+        apply_state(user, C)                                      # changed while no session is open
+        with orm.db_session:
+            live = load()
+            groups_ok('session-after-offline-change', user, [C], [A, B, C])
+            judge('session-after-offline-change', user, pony_answers(user, live), [rC], [A, B, C], previous=rB)
+        MEMBERS.pop(mkey(user), None)
 
 
 def json_monitor(ctx, m, specs, ref, live, rng):
@@ -539,6 +671,9 @@ def run(ctx):
     ctx.floor('to_json.returned', 3000)
     ctx.floor('to_json.refused', 3000)
     ctx.floor('to_json.objects_in_output', 8000)
+    ctx.floor('membership.questions', 200000)
+    ctx.floor('membership.questions_exposing_staleness', 5000)
+    ctx.floor('membership.get_user_groups_calls', 5000)
 
 
 def replay(ctx, witness):
